@@ -187,25 +187,38 @@ func TestVerif_C16_exec_gates(t *testing.T) {
 				rb = []byte("{not json")
 			}
 			p := vC16Plugin(ids, writers, wmode == 2, 0, my, cand, ocrErr, &vCCIPReader{})
-			ok, err := p.ShouldTransmitAcceptedReport(ctx, 1, ocr3types.ReportWithInfo[[]byte]{Report: rb})
-			candS := cSome(cN(uint64(cand)))
-			if ocrErr {
-				candS = cNone()
+			steps := r.Range(1, 4)
+			for st := 0; st < steps; st++ {
+				if st > 0 {
+					cand = byte(r.Range(0, 2))
+					ocrErr = r.Chance(1, 8)
+					hc := p.homeChain.(*vHomeChain)
+					hc.OCRErr = ocrErr
+					hc.OCR.CandidateConfig.ConfigDigest = vC16Digest(cand)
+				}
+				ok, err := p.ShouldTransmitAcceptedReport(ctx, uint64(st+1), ocr3types.ReportWithInfo[[]byte]{Report: rb})
+				candS := cSome(cN(uint64(cand)))
+				if ocrErr {
+					candS = cNone()
+				}
+				w := cSome(cBool(wmode != 1))
+				if wmode == 2 {
+					w = cNone()
+				}
+				in := cApp("GExecT", w, cN(uint64(my)), candS, cBool(decodeOK))
+				cls := "transmit"
+				if my == cand {
+					cls = "transmit-candidate"
+				}
+				if wmode == 1 {
+					cls = "transmit-nonwriter"
+				}
+				if st > 0 {
+					cls += "-later-call"
+				}
+				sink.Emit("C16_gate_exec", cls, true, cPair(in, code(ok, err)),
+					map[string]any{"my": my, "cand": cand, "ocrErr": ocrErr, "decodeOK": decodeOK, "writerMode": wmode, "call": st})
 			}
-			w := cSome(cBool(wmode != 1))
-			if wmode == 2 {
-				w = cNone()
-			}
-			in := cApp("GExecT", w, cN(uint64(my)), candS, cBool(decodeOK))
-			cls := "transmit"
-			if my == cand {
-				cls = "transmit-candidate"
-			}
-			if wmode == 1 {
-				cls = "transmit-nonwriter"
-			}
-			sink.Emit("C16_gate_exec", cls, true, cPair(in, code(ok, err)),
-				map[string]any{"my": my, "cand": cand, "ocrErr": ocrErr, "decodeOK": decodeOK, "writerMode": wmode})
 		} else {
 			nilRep := r.Chance(1, 8)
 			decodeOK := !r.Chance(1, 8)
